@@ -32,6 +32,7 @@ type skGen struct {
 const (
 	skRetGoroutine = iota // return leaves the goroutine
 	skRetEscape           // return leaves an inlined function / deferred literal
+	skRetCont             // return of an inlined error-returning closure: continues with retCont(result)
 )
 const (
 	skLoopNone = iota
@@ -54,6 +55,12 @@ type skTc struct {
 	tail     bool // falling through the current block ends the goroutine
 	tailHere bool
 	depth    int
+	// error flow: the error variable known to hold an error (failVar) / known to hold none
+	// (okVar; okEOF: "none" includes io.EOF) since the operation that assigned it
+	failVar, okVar string
+	okEOF          bool
+	retCont        func(c *skTc, result ast.Expr) []skS
+	deferLit       bool // directly in a deferred function literal
 }
 
 func skUnknown() []skS { return []skS{{kind: "Io", io: "Unknown"}} }
@@ -417,6 +424,7 @@ func (c *skTc) inlineFn(key string, recv *skVal, args []ast.Expr, inLoop bool) [
 	}
 	c.bindParams(c2.env, c2.fn, fd.Type.Params, args)
 	c2.selDepth, c2.cond = 0, 0
+	c2.failVar, c2.okVar, c2.retCont, c2.deferLit = "", "", nil, false
 	if !inLoop && c.tailHere && c.retMode == skRetGoroutine {
 		c2.tail, c2.loop = true, skLoopNone
 	} else {
@@ -436,7 +444,314 @@ func (c *skTc) inlineLit(v *skVal, args []ast.Expr) []skS {
 	c2.fnBody = v.lit.Body
 	c.bindParams(c2.env, c2.fn, v.lit.Type.Params, args)
 	c2.retMode, c2.tail, c2.loop, c2.loopTail, c2.selDepth, c2.cond = skRetEscape, false, skLoopNone, false, 0, 0
+	c2.failVar, c2.okVar, c2.retCont, c2.deferLit = "", "", nil, false
 	return c2.block(v.lit.Body.List, nil)
+}
+
+// inlineLitCont: inline an error-returning closure; each of its returns continues with
+// cont(result expression) (the caller's error path or its normal path)
+func (c *skTc) inlineLitCont(v *skVal, args []ast.Expr, cont func(c *skTc, result ast.Expr) []skS) []skS {
+	if c.depth > 8 {
+		return skUnknown()
+	}
+	c2 := *c
+	c2.depth++
+	c2.env = skNewEnv(v.env)
+	c2.fn = v.fn
+	c2.fnBody = v.lit.Body
+	c.bindParams(c2.env, c2.fn, v.lit.Type.Params, args)
+	c2.retMode, c2.tail, c2.tailHere, c2.loop, c2.loopTail, c2.selDepth, c2.cond = skRetCont, false, false, skLoopNone, false, 0, 0
+	c2.failVar, c2.okVar, c2.retCont = "", "", cont
+	return c2.block(v.lit.Body.List, nil)
+}
+
+// ---- error flow ----
+
+func (c *skTc) isErrName(n string) bool { return n == "err" || c.fn.types[n] == "error" }
+
+// errVarOf: the error variable an assignment sets (its last left-hand side)
+func (c *skTc) errVarOf(as *ast.AssignStmt) string {
+	if len(as.Lhs) == 0 {
+		return ""
+	}
+	if id, ok := as.Lhs[len(as.Lhs)-1].(*ast.Ident); ok && c.isErrName(id.Name) {
+		return id.Name
+	}
+	return ""
+}
+
+// errTest: the condition is `v != nil` for an error variable v
+func (c *skTc) errTest(e ast.Expr) (string, bool) {
+	if p, ok := e.(*ast.ParenExpr); ok {
+		return c.errTest(p.X)
+	}
+	be, ok := e.(*ast.BinaryExpr)
+	if !ok || be.Op != token.NEQ {
+		return "", false
+	}
+	id, ok := be.X.(*ast.Ident)
+	if !ok || !c.isErrName(id.Name) || c.g.s.text(be.Y) != "nil" {
+		return "", false
+	}
+	return id.Name, true
+}
+
+// condVal: value of a condition on the tracked error variable: 1 true, 0 false, -1 unknown.
+// "Holds an error" means: not nil and not io.EOF.
+func (c *skTc) condVal(e ast.Expr) int {
+	switch e := e.(type) {
+	case *ast.ParenExpr:
+		return c.condVal(e.X)
+	case *ast.UnaryExpr:
+		if e.Op == token.NOT {
+			if v := c.condVal(e.X); v >= 0 {
+				return 1 - v
+			}
+		}
+	case *ast.BinaryExpr:
+		switch e.Op {
+		case token.LAND, token.LOR:
+			a, b := c.condVal(e.X), c.condVal(e.Y)
+			dom := 0 // the dominating value: false for &&, true for ||
+			if e.Op == token.LOR {
+				dom = 1
+			}
+			if a == dom || b == dom {
+				return dom
+			}
+			if a == 1-dom && b == 1-dom {
+				return 1 - dom
+			}
+		case token.EQL, token.NEQ:
+			id, ok := e.X.(*ast.Ident)
+			if !ok {
+				return -1
+			}
+			rhs := c.g.s.text(e.Y)
+			v := -1 // value of ==
+			switch {
+			case id.Name == c.failVar && (rhs == "nil" || rhs == "io.EOF"):
+				v = 0
+			case id.Name == c.okVar && rhs == "nil" && !c.okEOF:
+				v = 1
+			}
+			if v >= 0 && e.Op == token.NEQ {
+				v = 1 - v
+			}
+			return v
+		}
+	}
+	return -1
+}
+
+func skAllIo(l []skS) bool {
+	for _, s := range l {
+		if s.kind != "Io" || s.io == "Unknown" {
+			return false
+		}
+	}
+	return len(l) > 0
+}
+
+func (c *skTc) mentionsEOF(lists ...[]ast.Stmt) bool {
+	found := false
+	for _, l := range lists {
+		for _, st := range l {
+			ast.Inspect(st, func(n ast.Node) bool {
+				if sel, ok := n.(*ast.SelectorExpr); ok && c.g.s.text(sel) == "io.EOF" {
+					found = true
+				}
+				return true
+			})
+		}
+	}
+	return found
+}
+
+// endsWithReturn: the block ends with a return statement that is not the completion idiom
+// `ch <- result; return`
+func skEndsWithReturn(l []ast.Stmt) bool {
+	if len(l) == 0 {
+		return false
+	}
+	if _, ok := l[len(l)-1].(*ast.ReturnStmt); !ok {
+		return false
+	}
+	if len(l) >= 2 {
+		if _, ok := l[len(l)-2].(*ast.SendStmt); ok {
+			return false
+		}
+	}
+	return true
+}
+
+// tieAssign: `..., v := CALL` where CALL is one or more operations of the Io table (or a codec
+// wrapper with channel operations inside) and v an error variable.  The statements after it are translated twice: with v known to hold an
+// error (the error path h, tied to the operation as IoE k h) and with v known to hold none.
+// scoped != nil: the assignment is the init part of `if v := CALL; cond {..}`; scoped is
+// that if statement without its init part and v is not visible after it.
+// Also: CALL is an error-returning closure with channel operations (inlined; each of its
+// returns continues with the caller's error path or normal path).
+func (c *skTc) tieAssign(as *ast.AssignStmt, scoped, rest []ast.Stmt, k []skS) ([]skS, bool) {
+	if len(as.Rhs) != 1 {
+		return nil, false
+	}
+	call, ok := as.Rhs[0].(*ast.CallExpr)
+	v := c.errVarOf(as)
+	if v == "" && ok && len(as.Lhs) > 0 {
+		// whatever its name: the last result of the call, compared with nil / io.EOF afterwards
+		if id, isId := as.Lhs[len(as.Lhs)-1].(*ast.Ident); isId && id.Name != "_" && c.testedLater(id.Name, scoped, rest) {
+			v = id.Name
+		}
+	}
+	if !ok || v == "" {
+		return nil, false
+	}
+	cf, co := *c, *c
+	cf.failVar, cf.okVar = v, ""
+	co.failVar, co.okVar, co.okEOF = "", v, c.mentionsEOF(scoped, rest)
+	if id, ok := call.Fun.(*ast.Ident); ok {
+		if cv := c.env.get(id.Name); cv != nil && cv.kind == skvClosure {
+			res := cv.lit.Type.Results
+			if res == nil || len(res.List) == 0 || skTypeStr(c.g.s, res.List[len(res.List)-1].Type) != "error" {
+				return nil, false
+			}
+			var failC, okC []skS
+			if scoped != nil {
+				kRest := c.block(rest, k)
+				failC, okC = cf.block(scoped, kRest), co.block(scoped, kRest)
+			} else {
+				failC, okC = cf.block(rest, k), co.block(rest, k)
+			}
+			var pre []skS
+			for _, a := range call.Args {
+				pre = append(pre, c.exprs(a)...)
+			}
+			body := c.inlineLitCont(cv, call.Args, func(ci *skTc, r ast.Expr) []skS {
+				switch ci.errClass(r) {
+				case 1:
+					return failC
+				case 0:
+					return okC
+				}
+				return []skS{{kind: "Branch", a: failC, b: okC}}
+			})
+			return append(pre, body...), true
+		}
+	}
+	ios := c.exprs(call)
+	pure := skAllIo(ios)
+	if len(ios) == 0 {
+		return nil, false // a computation: its error test is rendered as IoE Check where it stands
+	}
+	for _, s := range ios {
+		if s.kind == "Io" && s.io == "Unknown" {
+			return nil, false
+		}
+	}
+	var h, okc []skS
+	if scoped != nil {
+		h = cf.block(scoped, nil)
+		okc = append(co.block(scoped, nil), c.block(rest, k)...)
+	} else {
+		h = cf.block(rest, k)
+		okc = co.block(rest, k)
+		if !skTerminates(h) {
+			// the error path rejoins the normal path: not representable, leave the operation
+			// untied (faults_cancel then reports it)
+			return nil, false
+		}
+	}
+	var out []skS
+	if pure {
+		for _, io := range ios {
+			out = append(out, skS{kind: "IoE", io: io.io, a: h})
+		}
+	} else {
+		// a call with channel operations inside (codec wrapper around the channel-backed
+		// reader / writer): its error is that of a computation made after them
+		out = append(append(out, ios...), skS{kind: "IoE", io: "Check", a: h})
+	}
+	return append(out, okc...), true
+}
+
+// testedLater: one of the statements (or an else-if chain in them) tests `name ==/!= nil` or io.EOF
+func (c *skTc) testedLater(name string, lists ...[]ast.Stmt) bool {
+	found := false
+	var cond func(e ast.Expr)
+	cond = func(e ast.Expr) {
+		switch e := e.(type) {
+		case *ast.ParenExpr:
+			cond(e.X)
+		case *ast.BinaryExpr:
+			if e.Op == token.LAND || e.Op == token.LOR {
+				cond(e.X)
+				cond(e.Y)
+			} else if e.Op == token.EQL || e.Op == token.NEQ {
+				if id, ok := e.X.(*ast.Ident); ok && id.Name == name {
+					if y := c.g.s.text(e.Y); y == "nil" || y == "io.EOF" {
+						found = true
+					}
+				}
+			}
+		}
+	}
+	var ifs func(st ast.Stmt)
+	ifs = func(st ast.Stmt) {
+		if s, ok := st.(*ast.IfStmt); ok {
+			cond(s.Cond)
+			if s.Else != nil {
+				ifs(s.Else)
+			}
+		}
+	}
+	for _, l := range lists {
+		for _, st := range l {
+			ifs(st)
+		}
+	}
+	return found
+}
+
+// errClass: does the returned error expression hold an error?  1 yes, 0 no, -1 unknown
+func (c *skTc) errClass(r ast.Expr) int {
+	switch r := r.(type) {
+	case nil:
+		return 0
+	case *ast.Ident:
+		switch {
+		case r.Name == "nil":
+			return 0
+		case r.Name == c.failVar:
+			return 1
+		case r.Name == c.okVar && !c.okEOF:
+			return 0
+		}
+	case *ast.CallExpr:
+		return 1 // ctx.Err() in a Done arm, simpleTrzszError(...), fmt.Errorf(...)
+	}
+	return -1
+}
+
+// endsWithTie: the statement is an if whose arms (recursively) end with an assignment of the
+// error variable v from an operation of the Io table
+func (c *skTc) endsWithTie(st ast.Stmt, v string) bool {
+	switch st := st.(type) {
+	case *ast.AssignStmt:
+		if len(st.Rhs) == 1 && c.errVarOf(st) == v {
+			if call, ok := st.Rhs[0].(*ast.CallExpr); ok {
+				return skAllIo(c.exprs(call))
+			}
+		}
+	case *ast.BlockStmt:
+		return len(st.List) > 0 && c.endsWithTie(st.List[len(st.List)-1], v)
+	case *ast.IfStmt:
+		if c.endsWithTie(st.Body, v) {
+			return true
+		}
+		return st.Else != nil && c.endsWithTie(st.Else, v)
+	}
+	return false
 }
 
 // ---- statements ----
@@ -491,6 +806,13 @@ func (c *skTc) block(stmts []ast.Stmt, k []skS) []skS {
 		if c.retMode == skRetGoroutine {
 			out = append(out, skS{kind: "Return"})
 		}
+		if c.retMode == skRetCont {
+			var last ast.Expr
+			if len(st.Results) > 0 {
+				last = st.Results[len(st.Results)-1]
+			}
+			out = append(out, c.retCont(c, last)...)
+		}
 		return out // the rest is unreachable; an inlined return drops the continuation
 	case *ast.BranchStmt:
 		if st.Label != nil || c.loop == skLoopNone || c.selDepth > 0 && st.Tok == token.BREAK {
@@ -510,6 +832,23 @@ func (c *skTc) block(stmts []ast.Stmt, k []skS) []skS {
 		if s, ok := c.ifCtxExit(st); ok {
 			return append(s, restS()...)
 		}
+		// `if v := OP(); v != nil {..}`: the error path is tied to the operation
+		if as, ok := st.Init.(*ast.AssignStmt); ok && st.Init != nil {
+			noInit := *st
+			noInit.Init = nil
+			if out, ok := c.tieAssign(as, []ast.Stmt{&noInit}, rest, k); ok {
+				return out
+			}
+		}
+		// the arms end by assigning an error from an operation, the test follows the if:
+		// move the test into the arms
+		if len(rest) > 0 && st.Init == nil {
+			if nx, ok := rest[0].(*ast.IfStmt); ok && nx.Init == nil {
+				if v, ok := c.errTest(nx.Cond); ok && c.endsWithTie(st, v) {
+					return c.block(append([]ast.Stmt{skHoist(st, nx)}, rest[1:]...), k)
+				}
+			}
+		}
 		var pre []skS
 		if st.Init != nil {
 			pre = c.stmt(st.Init)
@@ -519,6 +858,13 @@ func (c *skTc) block(stmts []ast.Stmt, k []skS) []skS {
 		if st.Else != nil {
 			els = []ast.Stmt{st.Else}
 		}
+		// the condition is decided by what is known of the tracked error variable
+		switch c.condVal(st.Cond) {
+		case 1:
+			return append(pre, c.block(append(append([]ast.Stmt{}, st.Body.List...), rest...), k)...)
+		case 0:
+			return append(pre, c.block(append(append([]ast.Stmt{}, els...), rest...), k)...)
+		}
 		c2 := *c
 		c2.cond++
 		if c.escapes(st.Body.List) || c.escapes(els) {
@@ -527,6 +873,19 @@ func (c *skTc) block(stmts []ast.Stmt, k []skS) []skS {
 			return append(pre, skS{kind: "Branch", a: c2.block(st.Body.List, kk), b: c2.block(els, kk)})
 		}
 		c2.tail = c.tail && len(rest) == 0 && len(k) == 0
+		// an error test, or a conditional return from a stage: a failure of the stage itself
+		fault := false
+		if st.Else == nil && (c.retMode != skRetEscape || c.deferLit) {
+			if _, ok := c.errTest(st.Cond); ok {
+				fault = true
+			} else if c.retMode == skRetGoroutine && skEndsWithReturn(st.Body.List) {
+				fault = true
+			}
+		}
+		if fault {
+			br := skS{kind: "IoE", io: "Check", a: c2.block(st.Body.List, nil)}
+			return append(append(pre, br), restS()...)
+		}
 		br := skS{kind: "Branch", a: c2.block(st.Body.List, nil), b: c2.block(els, nil)}
 		return append(append(pre, br), restS()...)
 	case *ast.SelectStmt:
@@ -559,10 +918,41 @@ func (c *skTc) block(stmts []ast.Stmt, k []skS) []skS {
 		}
 		return append([]skS{s}, restS()...)
 	}
+	if as, ok := st.(*ast.AssignStmt); ok {
+		if out, ok := c.tieAssign(as, nil, rest, k); ok {
+			return out
+		}
+	}
 	c2 := *c
 	c2.tailHere = c.tail && len(rest) == 0 && len(k) == 0
 	out := c2.stmt(st)
+	if as, ok := st.(*ast.AssignStmt); ok {
+		if v := c.errVarOf(as); v != "" && (v == c.failVar || v == c.okVar) {
+			c3 := *c // the tracked variable is overwritten
+			c3.failVar, c3.okVar = "", ""
+			return append(out, c3.block(rest, k)...)
+		}
+	}
 	return append(out, restS()...)
+}
+
+// skHoist: `if c {A} else {B}; if t {H}`  ==>  `if c {A; if t {H}} else {B; if t {H}}`
+func skHoist(st, test *ast.IfStmt) *ast.IfStmt {
+	out := *st
+	body := *st.Body
+	body.List = append(append([]ast.Stmt{}, st.Body.List...), test)
+	out.Body = &body
+	switch e := st.Else.(type) {
+	case nil:
+		out.Else = &ast.BlockStmt{List: []ast.Stmt{test}}
+	case *ast.BlockStmt:
+		eb := *e
+		eb.List = append(append([]ast.Stmt{}, e.List...), test)
+		out.Else = &eb
+	case *ast.IfStmt:
+		out.Else = &ast.BlockStmt{List: []ast.Stmt{e, test}}
+	}
+	return &out
 }
 
 func (c *skTc) ifCtxExit(st *ast.IfStmt) ([]skS, bool) {
@@ -827,7 +1217,13 @@ func (c *skTc) deferStmt(st *ast.DeferStmt) []skS {
 	}
 	var body []skS
 	if lit, ok := call.Fun.(*ast.FuncLit); ok {
-		body = c.inlineLit(&skVal{kind: skvClosure, lit: lit, env: c.env, fn: c.fn}, nil)
+		c2 := *c
+		c2.depth++
+		c2.env = skNewEnv(c.env)
+		c2.fnBody = lit.Body
+		c2.retMode, c2.tail, c2.tailHere, c2.loop, c2.loopTail, c2.selDepth, c2.cond = skRetEscape, false, false, skLoopNone, false, 0, 0
+		c2.failVar, c2.okVar, c2.retCont, c2.deferLit = "", "", nil, true
+		body = c2.block(lit.Body.List, nil)
 	} else {
 		c2 := *c
 		c2.tailHere = false
@@ -937,7 +1333,35 @@ func (g *skGen) build(name, mainKey string) *skNet {
 	c := skTc{g: g, env: skNewEnv(nil), proc: p, top: fd, fnBody: fd.Body, retMode: skRetGoroutine, tail: true}
 	c.fn = g.fnTypes(mainKey, fd.Recv, fd.Type, fd.Body)
 	c.bindParams(c.env, c.fn, fd.Type.Params, nil)
-	p.body = c.block(fd.Body.List, nil)
+	// the net exists from the statement that creates the context; what the main function does
+	// before (its own early returns) is kept apart as <net>_main_prelude
+	stmts := fd.Body.List
+	cut := 0
+	for i, st := range stmts {
+		found := false
+		ast.Inspect(st, func(n ast.Node) bool {
+			if call, ok := n.(*ast.CallExpr); ok {
+				if _, ext := g.callKeys(c.fn, call); ext == "context.WithCancelCause" || ext == "context.WithCancel" {
+					found = true
+				}
+			}
+			return true
+		})
+		if found {
+			cut = i
+			break
+		}
+	}
+	if cut > 0 {
+		cp := c
+		cp.proc = &skProc{name: "prelude"}
+		cp.tail = false
+		g.net.prelude = skNorm(cp.block(stmts[:cut], nil))
+		if g.net.prelude == nil {
+			g.net.prelude = []skS{}
+		}
+	}
+	p.body = c.block(stmts[cut:], nil)
 	// main first in the source, last in the net: stage goroutines in spawn order, then main
 	g.net.procs = append(g.net.procs[1:], p)
 	for _, q := range g.net.procs {
